@@ -7,4 +7,4 @@ Definition keepZ : Z := Z.add 0 0.
 Definition keepNat : nat := length (@nil N).
 Extraction "model_c20.ml" keepN keepZ keepNat model_obs judge mk_case cert_of_tag cddl_tag cert_coin
   known_pool_retirement known_ignores_proposals case_body spec_deposit_res spec_implicit_res
-  imodel_obs ijudge effective mk_icase mk_icert mk_ident mk_iwd mk_iprop.
+  imodel_obs ijudge effective positional mk_icase mk_icert mk_ident mk_iwd mk_iprop.
